@@ -54,6 +54,9 @@ def _mk(struct, creation_reversed=False):
     for nm in names:
         for idx, ref in enumerate(specs[nm]):
             nodes[nm].replace_input_with(idx, val(ref))
+    if struct.get("dangling"):
+        # a consumer that belongs to no graph (a replaced node dropped without detaching it, a candidate never added)
+        nodes["d0"] = ir.Node("", "Op", [val(r) for r in struct["dangling"]], num_outputs=1, name="d0")
     graphs = {}
     if struct.get("deep"):
         hostj, dspecs = struct["deep"]
@@ -241,7 +244,20 @@ def gen_deep(n):
                     yield {"main": list(mcombo), "body": (host, [b]), "deep": (0, [c])}
 
 
+def gen_dangling():
+    """Every 2-node main graph and every 2+1 nested structure, with a graph-less consumer of each visible value."""
+    for st in gen_main_only(2):
+        for ref in [("m", 0, 0), ("m", 0, 1), ("m", 1, 0), "x"]:
+            yield dict(st, dangling=(ref,))
+    for st in gen_with_body(2, 1):
+        for ref in [("m", 0, 0), ("m", 1, 0), ("b", 0, 0)]:
+            yield dict(st, dangling=(ref,))
+
+
 def with_perms(struct):
+    if struct.get("identity_only"):
+        yield struct
+        return
     n = len(struct["main"])
     kb = len(struct["body"][1]) if struct.get("body") else 0
     for pm in itertools.permutations(range(n)):
@@ -257,7 +273,13 @@ def families(tier):
     fams = [("main3", lambda: gen_main_only(3), "graph"), ("main2_body2", lambda: gen_with_body(2, 2), "graph"),
             ("main3_body1", lambda: gen_with_body(3, 1), "graph"), ("deep2", lambda: gen_deep(2), "graph"),
             ("main2_pass", lambda: gen_main_only(2), "pass"), ("main2_function", lambda: gen_main_only(2), "function")]
+    fams += [("main1_body2", lambda: gen_with_body(1, 2, reduced=False), "graph"), ("main1_body3", lambda: gen_with_body(1, 3), "graph"),
+             ("main1_body2_function", lambda: gen_with_body(1, 2, reduced=False), "function"), ("main1_body2_pass", lambda: gen_with_body(1, 2, reduced=False), "pass"),
+             ("deep1", lambda: gen_deep(1), "graph"), ("dangling_consumer", gen_dangling, "graph"),
+             # four outer nodes and a one-node body, initial order as listed (stability of an order that is already valid)
+             ("main4_body1_listed_order", lambda: (dict(st, identity_only=True) for st in gen_with_body(4, 1)), "graph")]
     if tier == "thorough":
+        fams += [("main4_body1", lambda: gen_with_body(4, 1), "graph"), ("main2_body3", lambda: gen_with_body(2, 3), "graph")]
         fams += [("main3_body2", lambda: gen_with_body(3, 2), "graph"), ("deep3", lambda: gen_deep(3), "graph"),
                  ("main2_body2_full", lambda: gen_with_body(2, 2, reduced=False), "graph"),
                  ("main3_pass", lambda: gen_main_only(3), "pass")]
@@ -341,6 +363,8 @@ def replay(obj):
     for k in ("perm_main", "perm_body", "perm_deep"):
         if s.get(k):
             st[k] = s[k]
+    if s.get("dangling"):
+        st["dangling"] = tuple(fix(i) for i in s["dangling"])
     v = check_struct(st, obj.get("via", "graph"))
     bad = [c for c in v if c[0] == obj["oracle"]]
     return (not bad), v
